@@ -114,6 +114,16 @@ func (r *c11run) prologue() bool {
 				}
 				r.p.conns[P][i] = nc
 			}
+			if len(ro.Openers) > 1 {
+				hs, bad, _ := acquireConcurrently(r.p.m[S], id, ro.Openers)
+				if bad != "" {
+					r.failf("concurrent re-open on mux %d: %s", S, bad)
+					return
+				}
+				r.p.conns[S][i] = hs[0]
+				r.addClass("reopened_by_concurrent_openers")
+				return
+			}
 			nc, err := r.p.m[S].Open(multiplex.ConnID(id))
 			if err != nil || nc == nil {
 				r.failf("re-Open(%d) on mux %d returned (%v, %v)", id, S, nc, err)
